@@ -92,6 +92,26 @@ def harness(cond, msg):
         raise RuntimeError("C19 harness: " + msg)
 
 
+def guard(sig, fn, *args, _alias_ok=True, **kw):
+    """fn(*args, **kw) with the caller's arrays watched: conversions are functions, so every ndarray argument must
+    come back bit-identical, and (unless _alias_ok) an ndarray result must not share memory with an argument."""
+    watched = [(k, a, a.copy()) for k, a in list(enumerate(args)) + list(kw.items()) if isinstance(a, np.ndarray)]
+    out = fn(*args, **kw)
+    for k, a, c in watched:
+        same = a.shape == c.shape and bool(((a == c) | ((a != a) & (c != c))).all())
+        check(same, sig + "|mutates_input", lambda: f"{fn.__name__}: argument {k} changed from {c.tolist()} to {a.tolist()}")
+        if not _alias_ok:
+            for o in out if isinstance(out, tuple) else (out,):
+                check(not (isinstance(o, np.ndarray) and np.shares_memory(o, a)), sig + "|result_aliases_input", lambda: f"{fn.__name__}: result shares memory with argument {k}")
+    return out
+
+
+def mag_class(x):
+    """decade bucket of a magnitude, for the histogram"""
+    x = abs(float(x))
+    return "0" if x == 0 else "<=1e-6" if x <= 1e-6 else "<=1e-3" if x <= 1e-3 else "unit" if x < 1e3 else "<1e6" if x < 1e6 else ">=1e6"
+
+
 def sing_tol(base, dist, noise=32 * EPS):
     """base + noise/dist, the second term never above CAP"""
     return base + min(noise / max(dist, EPS), CAP)
@@ -134,7 +154,7 @@ def b_euler(case, ctx):
     Mt = tf.euler_matrix(ai, aj, ak, tup)
     check(np.array_equal(Mt, M), f"C19.euler|euler_matrix|tuple_form|{axes}", lambda: f"tuple {tup} gives a different matrix")
     # round trip (input is the library's own matrix: entries carry full relative precision)
-    a2 = tf.euler_from_matrix(M, axes)
+    a2 = guard(f"C19.euler|euler_from_matrix|{axes}", tf.euler_from_matrix, M, axes)
     check(all(math.isfinite(float(x)) for x in a2), f"C19.euler|euler_from_matrix|{axes}|not_finite", str(a2))
     M2 = ref.euler_ref(float(a2[0]), float(a2[1]), float(a2[2]), axes)
     e = maxabs(M2 - want)
@@ -159,7 +179,7 @@ def b_euler_quat(case, ctx):
     check(e <= T13, f"C19.euler_quat|quaternion_from_euler|{axes}", lambda: f"a={case['a']} q={q.tolist()} rotation differs by {e:.3g}")
     qt = tf.quaternion_from_euler(ai, aj, ak, ref.axes_tuple(axes))
     check(np.array_equal(qt, q), f"C19.euler_quat|quaternion_from_euler|tuple_form|{axes}", "")
-    routes = (("reference_matrix", lambda: tf.euler_from_matrix(ref.hom(want), axes), want), ("euler_from_quaternion", lambda: tf.euler_from_quaternion(q, axes), ref.quat_to_mat(q)))
+    routes = (("reference_matrix", lambda: guard("C19.euler_quat|euler_from_matrix", tf.euler_from_matrix, ref.hom(want), axes), want), ("euler_from_quaternion", lambda: guard("C19.euler_quat|euler_from_quaternion", tf.euler_from_quaternion, q, axes), ref.quat_to_mat(q)))
     for name, fn, Rin in routes:
         a2 = fn()
         M2 = ref.euler_ref(float(a2[0]), float(a2[1]), float(a2[2]), axes)
@@ -203,7 +223,7 @@ def b_axis_angle(case, ctx):
     acls = angle_class(angle)
     planar = "axis_in_plane" if min(abs(u[2]), max(abs(u[1]), abs(u[0]))) < 1e-3 else "axis_generic"
     ctx.note(nontrivial=acls != "zero", cls=[f"axis_angle:{acls}", f"axis_angle:{planar}", "axis_angle:" + ("point" if point is not None else "origin")])
-    M = tf.rotation_matrix(angle, axis, point)
+    M = guard("C19.axis_angle|rotation_matrix", tf.rotation_matrix, angle, axis, point)
     check_hom(M, "C19.axis_angle|rotation_matrix")
     e = maxabs(M[:3, :3] - want)
     check(e <= T14, "C19.axis_angle|rotation_matrix|vs_rodrigues", lambda: f"angle={angle} axis={axis.tolist()}: {e:.3g}")
@@ -222,17 +242,17 @@ def b_axis_angle(case, ctx):
         e = maxabs(M1 - M)
         check(e <= T13 * ps * (1 + abs(angle)), f"C19.axis_angle|rotation_matrix|{nm}", lambda: f"{e:.3g}")
     # quaternion_about_axis
-    q = tf.quaternion_about_axis(angle, axis)
+    q = guard("C19.axis_angle|quaternion_about_axis", tf.quaternion_about_axis, angle, axis)
     e = maxabs(q - ref.axis_angle_quat(axis, angle))
     check(e <= T14, "C19.axis_angle|quaternion_about_axis", lambda: f"angle={angle} axis={axis.tolist()} q={q.tolist()}: {e:.3g}")
     e = maxabs(tf.quaternion_matrix(q)[:3, :3] - want)
     check(e <= T13, "C19.axis_angle|quaternion_about_axis|matrix", lambda: f"{e:.3g}")
     # kwargs_to_matrix(axis=, angle=)
-    K = kwargs_to_matrix(axis=axis, angle=angle)
+    K = guard("C19.axis_angle|kwargs_to_matrix", kwargs_to_matrix, axis=axis, angle=angle)
     check(maxabs(K - ref.hom(want)) <= T14, "C19.axis_angle|kwargs_to_matrix|axis_angle", "")
     # axis-angle recovered from the matrix describes the same transform
     try:
-        ang2, d2, p2 = tf.rotation_from_matrix(M)
+        ang2, d2, p2 = guard("C19.axis_angle|rotation_from_matrix", tf.rotation_from_matrix, M)
     except ValueError as exc:
         raise Violation(f"C19.axis_angle|rotation_from_matrix|raises|{acls}", f"angle={angle} axis={axis.tolist()} point={case.get('point')}: {exc}")
     d2 = A(d2)
@@ -267,7 +287,7 @@ def b_quat_matrix(case, ctx):
     br = quat_branch(q)
     tie = sorted(np.abs(q))[-1] - sorted(np.abs(q))[-2] < 1e-2
     ctx.note(nontrivial=ref.rot_angle(want) > 1e-13, cls=[f"quat:branch={br}", "quat:" + ("w<0" if q[0] < 0 else "w=0" if q[0] == 0 else "w>0")] + (["quat:tie"] if tie else []))
-    M = tf.quaternion_matrix(q)
+    M = guard("C19.quat|quaternion_matrix", tf.quaternion_matrix, q, _alias_ok=False)
     check_hom(M, "C19.quat|quaternion_matrix")
     check(maxabs(M[:3, 3]) == 0.0, "C19.quat|quaternion_matrix|translation", "")
     e = maxabs(M[:3, :3] - want)
@@ -279,7 +299,7 @@ def b_quat_matrix(case, ctx):
     check(maxabs(K - ref.hom(want, [1.0, -2.0, 3.0])) <= T14, "C19.quat|kwargs_to_matrix|quaternion", "")
     for precise in (True, False):
         for src, Min in (("reference", ref.hom(want)), ("quaternion_matrix", M)):
-            qr = tf.quaternion_from_matrix(Min, isprecise=precise)
+            qr = guard("C19.quat|quaternion_from_matrix", tf.quaternion_from_matrix, Min, isprecise=precise, _alias_ok=False)
             sig = f"C19.quat|quaternion_from_matrix|isprecise={precise}|branch={br}"
             check(qr.shape == (4,) and np.isfinite(qr).all(), sig + "|not_finite", lambda: f"q={q.tolist()} -> {qr}")
             check(abs(float(np.dot(qr, qr)) - 1.0) <= T13, sig + "|norm", lambda: f"q={q.tolist()} -> {qr.tolist()}")
@@ -296,22 +316,22 @@ def b_quat_algebra(case, ctx):
     s = float(case["s"])
     Rq, Rp = ref.quat_to_mat(q), ref.quat_to_mat(p)
     ctx.note(nontrivial=ref.rot_angle(Rq) > 1e-13 and ref.rot_angle(Rp) > 1e-13, cls="quat_algebra")
-    r = tf.quaternion_multiply(q, p)
+    r = guard("C19.quat_algebra|multiply", tf.quaternion_multiply, q, p, _alias_ok=False)
     e = maxabs(r - ref.hamilton(q, p))
     check(e <= T14, "C19.quat_algebra|multiply|vs_hamilton", lambda: f"q={q.tolist()} p={p.tolist()} -> {r.tolist()}: {e:.3g}")
     e = maxabs(ref.quat_to_mat(r) - Rq @ Rp)
     check(e <= T13, "C19.quat_algebra|multiply|matrix_product", lambda: f"{e:.3g}")
-    c = tf.quaternion_conjugate(q)
+    c = guard("C19.quat_algebra|conjugate", tf.quaternion_conjugate, q, _alias_ok=False)
     check(c.tolist() == [q[0], -q[1], -q[2], -q[3]], "C19.quat_algebra|conjugate", str(c))
     e = maxabs(tf.quaternion_matrix(c)[:3, :3] - Rq.T)
     check(e <= T14, "C19.quat_algebra|conjugate|matrix_transpose", lambda: f"{e:.3g}")
-    inv = tf.quaternion_inverse(s * q)
+    inv = guard("C19.quat_algebra|inverse", tf.quaternion_inverse, s * q, _alias_ok=False)
     e = maxabs(tf.quaternion_multiply(s * q, inv) - [1.0, 0.0, 0.0, 0.0])
     check(e <= T14, "C19.quat_algebra|inverse|product_is_one", lambda: f"q={(s * q).tolist()} inv={inv.tolist()}: {e:.3g}")
     e = maxabs(inv * s - A([q[0], -q[1], -q[2], -q[3]]))
     check(e <= T14, "C19.quat_algebra|inverse|vs_conjugate", lambda: f"{e:.3g}")
     check(tf.quaternion_real(q) == q[0] and tf.quaternion_imag(q).tolist() == q[1:].tolist(), "C19.quat_algebra|real_imag", "")
-    both = tf.quaternion_matrix([q.tolist(), p.tolist()])
+    both = guard("C19.quat_algebra|quaternion_matrix|batch", tf.quaternion_matrix, np.array([q, p]), _alias_ok=False)
     check(both.shape == (2, 4, 4), "C19.quat_algebra|quaternion_matrix|batch_shape", str(both.shape))
     e = max(maxabs(both[0][:3, :3] - Rq), maxabs(both[1][:3, :3] - Rp))
     check(e <= T14, "C19.quat_algebra|quaternion_matrix|batch", lambda: f"{e:.3g}")
@@ -330,7 +350,7 @@ def b_slerp(case, ctx):
     flip = shortest and d < 0
     kind = "identical" if om < 5e-8 else "tiny" if om < 1e-3 else "generic"
     ctx.note(nontrivial=om > 1e-13, cls=[f"slerp:{kind}", "slerp:" + ("flip" if flip else "long" if d < 0 else "direct"), "slerp:t=" + ("0" if t == 0 else "1" if t == 1 else "mid")])
-    got = tf.quaternion_slerp(q0.tolist(), q1.tolist(), t, 0, shortest)
+    got = guard("C19.slerp", tf.quaternion_slerp, q0, q1, t, 0, shortest, _alias_ok=False)
     sig = f"C19.slerp|shortestpath={shortest}|{kind}"
     check(got.shape == (4,) and np.isfinite(got).all(), sig + "|not_finite", str(got))
     # acos(d) loses up to sqrt(2 eps) when d ~ 1 and the library returns q0 outright below that: CAP
@@ -363,28 +383,34 @@ def b_trs(case, ctx):
     gim = "gimbal" if cj <= 1e-15 else "near_gimbal" if cj < 1e-3 else "regular"
     canonical = one_sign and gim == "regular" and abs(angles[1]) < PI / 2 and all(-PI < a <= PI for a in (angles[0], angles[2]))
     has_shear = bool(np.any(shear != 0))
-    ctx.note(nontrivial=maxabs(L - np.eye(3)) > 1e-13, cls=[f"trs:{gim}", "trs:" + ("canonical" if canonical else "noncanonical"), "trs:" + ("one_sign" if one_sign else "mixed_sign"), "trs:" + ("shear" if has_shear else "noshear")])
-    nrm = max(1.0, maxabs(L))
-    M = tf.compose_matrix(scale=scale, shear=shear, angles=angles, translate=translate)
+    ctx.note(nontrivial=maxabs(L - np.eye(3)) > 1e-13, cls=[f"trs:{gim}", "trs:scale" + mag_class(maxabs(scale)), "trs:translate" + mag_class(maxabs(translate)), "trs:" + ("canonical" if canonical else "noncanonical"), "trs:" + ("one_sign" if one_sign else "mixed_sign"), "trs:" + ("shear" if has_shear else "noshear")])
+    # everything is measured RELATIVE to the size of the block it lives in: the linear block scales with the scale
+    # factors (1e-9 .. 1e9, per-axis ratio bounded, which cond(L) accounts for), the translation with |translate|
+    Ls, ts = maxabs(L), maxabs(translate)
+
+    def rel(X, Y):
+        return maxabs(X[:3, :3] - Y[:3, :3]) / Ls, maxabs(X[:3, 3] - Y[:3, 3]) / (ts if ts else 1.0)
+
+    M = guard("C19.trs|compose_matrix", tf.compose_matrix, scale=scale, shear=shear, angles=A(angles), translate=translate)
     check_hom(M, "C19.trs|compose_matrix")
-    e = maxabs(M - want)
-    check(e <= T14 * max(nrm, maxabs(translate)), "C19.trs|compose_matrix|vs_definition", lambda: f"case={case}: {e:.3g}")
+    el, et = rel(M, want)
+    check(el <= T14 and et <= 4 * EPS, "C19.trs|compose_matrix|vs_definition", lambda: f"case={case}: relative error linear {el:.3g} translation {et:.3g}")
     # partial argument lists
-    e = maxabs(tf.compose_matrix(angles=angles, translate=translate) - ref.trs_ref([1, 1, 1], [0, 0, 0], angles, translate))
-    check(e <= T14 * max(1.0, maxabs(translate)), "C19.trs|compose_matrix|angles_translate_only", lambda: f"{e:.3g}")
+    el, et = rel(tf.compose_matrix(angles=angles, translate=translate), ref.trs_ref([1, 1, 1], [0, 0, 0], angles, translate))
+    check(el * Ls <= T14 and et <= 4 * EPS, "C19.trs|compose_matrix|angles_translate_only", lambda: f"{el * Ls:.3g} {et:.3g}")
     try:
-        sc2, sh2, an2, tr2, pe2 = tf.decompose_matrix(M)
+        sc2, sh2, an2, tr2, pe2 = guard("C19.trs|decompose_matrix", tf.decompose_matrix, M)
     except ValueError as exc:
-        raise Violation("C19.trs|decompose_matrix|raises_on_invertible", f"case={case}: {exc}")
+        raise Violation("C19.trs|decompose_matrix|raises_on_invertible", f"cond(L)={cond:.3g}, scale magnitude {maxabs(scale):.3g}; case={case}: {exc}")
     check(all(np.isfinite(A(x)).all() for x in (sc2, sh2, an2, tr2, pe2)), f"C19.trs|decompose_matrix|not_finite|{gim}", lambda: f"case={case} -> {sc2} {sh2} {an2}")
     check(A(pe2).tolist() == [0.0, 0.0, 0.0, 1.0], "C19.trs|decompose_matrix|perspective", str(pe2))
-    check(maxabs(A(tr2) - translate) <= 4 * EPS * maxabs(translate), "C19.trs|decompose_matrix|translate", lambda: f"{A(tr2).tolist()} vs {translate.tolist()}")
+    check(maxabs(A(tr2) - translate) <= 4 * EPS * ts, "C19.trs|decompose_matrix|translate", lambda: f"{A(tr2).tolist()} vs {translate.tolist()}")
     # Gram-Schmidt on the columns: noise eps*cond; angles: noise / cos(aj); asin at +-1 loses sqrt(2 eps cond) <= 1e-6 for cond <= 2e3
     noise = 64 * EPS * cond
     tol = noise / cj if gim == "regular" else 1e-6
-    M2 = tf.compose_matrix(sc2, sh2, an2, tr2, pe2)
-    e = maxabs(M2 - M)
-    check(e <= tol * nrm, f"C19.trs|recompose|{gim}|" + ("shear_or_scale" if has_shear or maxabs(np.abs(scale) - 1) > 0 else "pure_rotation"), lambda: f"scale={scale.tolist()} shear={shear.tolist()} angles={angles} -> scale={A(sc2).tolist()} shear={A(sh2).tolist()} angles={A(an2).tolist()}: compose(decompose(M)) differs from M by {e:.3g} > {tol * nrm:.3g}")
+    M2 = guard("C19.trs|compose_matrix", tf.compose_matrix, A(sc2), A(sh2), A(an2), A(tr2), A(pe2))
+    el, et = rel(M2, M)
+    check(el <= tol and et <= 4 * EPS, f"C19.trs|recompose|{gim}|" + ("shear_or_scale" if has_shear or maxabs(np.abs(scale) - 1) > 0 else "pure_rotation"), lambda: f"scale={scale.tolist()} shear={shear.tolist()} angles={angles} translate={translate.tolist()} -> scale={A(sc2).tolist()} shear={A(sh2).tolist()} angles={A(an2).tolist()}: compose(decompose(M)) differs from M by {el:.3g} (linear, relative) / {et:.3g} (translation, relative) > {tol:.3g}")
     check_rotation(tf.euler_matrix(*an2)[:3, :3], "C19.trs|decompose_matrix|angles", T14)
     if canonical:
         e = maxabs(A(sc2) - scale) / maxabs(scale)
@@ -407,7 +433,7 @@ def b_points(case, ctx):
     delta = maxabs(M - np.eye(dim + 1))
     short = delta < 1e-8
     ctx.note(nontrivial=len(P) > 0 and delta > 0, cls=[f"points:{dim}d:" + ("shortcut" if short else "near_shortcut" if delta < 1e-6 else "regular"), f"points:{dim}d:{case.get('cls', '?')}", f"points:translate={translate}", "points:empty" if len(P) == 0 else "points:nonempty"])
-    got = tf.transform_points(P, M, translate=translate)
+    got = guard("C19.points|transform_points", tf.transform_points, P, M, translate=translate, _alias_ok=False)
     sig = f"C19.points|{dim}d|translate={translate}"
     check(isinstance(got, np.ndarray) and got.shape == P.shape, sig + "|shape", lambda: f"{getattr(got, 'shape', None)} vs {P.shape}")
     if len(P) == 0:
@@ -450,18 +476,22 @@ def b_planar(case, ctx):
     th = 0.0 if theta is None else theta
     want = planar_ref(off, th, point, scale)
     ctx.note(nontrivial=maxabs(want - np.eye(3)) > 1e-13, cls=["planar:" + ("point" if point is not None else "nopoint"), "planar:" + ("scale" if scale is not None else "noscale"), "planar:theta=" + angle_class(th)])
-    T = tf.planar_matrix(offset=offset, theta=theta, point=point, scale=scale)
+    kw = {"offset": None if offset is None else A(offset), "theta": theta, "point": None if point is None else A(point), "scale": A(scale) if scale is not None and np.ndim(scale) else scale}
+    T = guard("C19.planar|planar_matrix", tf.planar_matrix, **kw)
     check_hom(T, "C19.planar|planar_matrix", dim=2)
-    mag = (1.0 + maxabs(off) + (2 * maxabs(point) if point is not None else 0.0)) * (max(1.0, maxabs(scale)) if scale is not None else 1.0)
-    e = maxabs(T - want)
-    check(e <= T14 * mag, "C19.planar|planar_matrix|vs_definition|" + ("point" if point is not None else "nopoint") + ("|scale" if scale is not None else ""), lambda: f"case={case}: got {T.tolist()} want {want.tolist()}")
+    # relative per row: row r of the result is scale[r] times (rotation | p - R p + offset)
+    rs = np.ones(2) if scale is None else np.abs(A(scale) if np.ndim(scale) else A([scale, scale]))
+    tm = maxabs(off) + (2 * maxabs(point) if point is not None else 0.0)
+    el = maxabs((T[:2, :2] - want[:2, :2]) / rs[:, None])
+    et = maxabs((T[:2, 2] - want[:2, 2]) / rs) / (tm if tm else 1.0)
+    check(el <= T14 and et <= T14, "C19.planar|planar_matrix|vs_definition|" + ("point" if point is not None else "nopoint") + ("|scale" if scale is not None else ""), lambda: f"case={case}: got {T.tolist()} want {want.tolist()} (relative error linear {el:.3g}, translation {et:.3g})")
     if scale is None:
         check_rotation(T[:2, :2], "C19.planar|planar_matrix", T14)
         if point is not None:
             e = maxabs(T[:2, :2] @ A(point) + T[:2, 2] - A(point) - A(off))
-            check(e <= 16 * EPS * mag, "C19.planar|planar_matrix|point_not_fixed", lambda: f"case={case}: {e:.3g}")
+            check(e <= 16 * EPS * tm, "C19.planar|planar_matrix|point_not_fixed", lambda: f"case={case}: {e:.3g}")
     # planar_matrix_to_3D: acts on (x, y) like the 2D matrix and leaves z alone
-    M3 = tf.planar_matrix_to_3D(T)
+    M3 = guard("C19.planar|planar_matrix_to_3D", tf.planar_matrix_to_3D, T, _alias_ok=False)
     w3 = np.eye(4)
     w3[:2, :2] = T[:2, :2]
     w3[:2, 3] = T[:2, 2]
@@ -469,7 +499,8 @@ def b_planar(case, ctx):
     pts2 = A([[0.0, 0.0], [1.0, 0.0], [-2.0, 3.5]])
     a2 = tf.transform_points(pts2, T)
     a3 = tf.transform_points(np.column_stack((pts2, [0.0, 1.0, -7.0])), M3)
-    check(maxabs(a3[:, :2] - a2) <= 16 * EPS * mag * 6 and a3[:, 2].tolist() == [0.0, 1.0, -7.0], "C19.planar|planar_matrix_to_3D|action", lambda: f"{a3.tolist()} vs {a2.tolist()}")
+    magp = np.abs(pts2) @ np.abs(T[:2, :2]).T + np.abs(T[:2, 2])
+    check(bool((np.abs(a3[:, :2] - a2) <= 32 * EPS * magp).all()) and a3[:, 2].tolist() == [0.0, 1.0, -7.0], "C19.planar|planar_matrix_to_3D|action", lambda: f"{a3.tolist()} vs {a2.tolist()}")
 
 
 @body("C19.around")
@@ -477,16 +508,19 @@ def b_around(case, ctx):
     dim = case["dim"]
     M = A(case["M"], (dim + 1, dim + 1))
     p = A(case["p"])
-    ctx.note(nontrivial=maxabs(M - np.eye(dim + 1)) > 1e-13, cls=[f"around:{dim}d", f"around:{case.get('cls', '?')}"])
-    got = tf.transform_around(M, p)
+    ctx.note(nontrivial=maxabs(M - np.eye(dim + 1)) > 1e-13, cls=[f"around:{dim}d", f"around:{case.get('cls', '?')}", "around:linear" + mag_class(maxabs(M[:dim, :dim])), "around:point" + mag_class(maxabs(p))])
+    got = guard("C19.around|transform_around", tf.transform_around, M, p, _alias_ok=False)
     L, t = M[:dim, :dim], M[:dim, dim]
     want = ref.hom(L, p - L @ p + t)
-    mag = (1.0 + maxabs(p)) * max(1.0, maxabs(L)) + maxabs(t)
     check(got.shape == want.shape, "C19.around|shape", str(got.shape))
-    e = maxabs(got - want)
-    check(e <= 16 * EPS * mag, f"C19.around|vs_definition|{dim}d", lambda: f"M={M.tolist()} p={p.tolist()}: {got.tolist()} vs {want.tolist()}")
+    # the linear block is untouched by conjugation with translations; the translation is p - L p + t
+    magt = maxabs(p) * (1.0 + float(np.abs(L).sum(axis=1).max())) + maxabs(t)
+    el = maxabs(got[:dim, :dim] - L)
+    check(el <= 4 * EPS * maxabs(L) and got[dim].tolist() == [0.0] * dim + [1.0], f"C19.around|vs_definition|linear|{dim}d", lambda: f"M={M.tolist()} p={p.tolist()}: {got.tolist()}")
+    e = maxabs(got[:dim, dim] - want[:dim, dim])
+    check(e <= 16 * EPS * magt, f"C19.around|vs_definition|{dim}d", lambda: f"M={M.tolist()} p={p.tolist()}: {got.tolist()} vs {want.tolist()}")
     e = maxabs(got[:dim, :dim] @ p + got[:dim, dim] - (p + t))
-    check(e <= 32 * EPS * mag, f"C19.around|point_not_fixed|{dim}d", lambda: f"M={M.tolist()} p={p.tolist()}: moves by {e:.3g}")
+    check(e <= 32 * EPS * magt, f"C19.around|point_not_fixed|{dim}d", lambda: f"M={M.tolist()} p={p.tolist()}: moves by {e:.3g}")
     # wrong-size input is documented to raise ValueError
     try:
         tf.transform_around(M, np.append(p, 1.0))
@@ -503,20 +537,74 @@ def b_scale_translate(case, ctx):
         want[:3, :3] = np.diag(A(scale) if np.ndim(scale) else A([scale] * 3))
     if translate is not None:
         want[:3, 3] = translate
-    ctx.note(nontrivial=maxabs(want - np.eye(4)) > 0, cls=["scale_translate:scale=" + ("none" if scale is None else "vector" if np.ndim(scale) else "scalar"), "scale_translate:translate=" + ("none" if translate is None else "vector" if np.ndim(translate) else "scalar")])
+    ctx.note(nontrivial=maxabs(want - np.eye(4)) > 0, cls=["scale_translate:scale=" + ("none" if scale is None else "vector" if np.ndim(scale) else "scalar"), "scale_translate:translate=" + ("none" if translate is None else "vector" if np.ndim(translate) else "scalar")] + ([] if scale is None else ["scale_translate:scale" + mag_class(maxabs(scale))]))
     kw = {}
     if scale is not None:
         kw["scale"] = np.asarray(scale, dtype=np.float64) if np.ndim(scale) else scale
     if translate is not None:
-        kw["translate"] = translate
+        kw["translate"] = np.asarray(translate, dtype=np.float64) if np.ndim(translate) else translate
     try:
-        got = tf.scale_and_translate(**kw)
+        got = guard("C19.scale_translate|scale_and_translate", tf.scale_and_translate, _alias_ok=False, **kw)
+    except Violation:
+        raise
     except Exception as exc:  # noqa
         raise Violation("C19.scale_translate|raises|scale=" + ("default_None" if scale is None else "given"), f"scale_and_translate({kw}) raised {type(exc).__name__}: {exc}")
     check(np.array_equal(got, want), "C19.scale_translate|vs_definition", lambda: f"{kw}: {np.asarray(got).tolist()} vs {want.tolist()}")
     # "optimized version of compose_matrix for just scaling then translating"
     if scale is not None and translate is not None and np.ndim(scale) and np.ndim(translate):
         check(maxabs(tf.compose_matrix(scale=scale, translate=translate) - got) == 0.0, "C19.scale_translate|vs_compose_matrix", "")
+
+
+def scale_ref(factor, origin, direction):
+    """x -> o + f (x - o)   resp.   x -> x + (f - 1) ((x - o) . d) d   for the unit vector d"""
+    o = np.zeros(3) if origin is None else A(origin)
+    if direction is None:
+        return ref.hom(factor * np.eye(3), (1.0 - factor) * o)
+    d = ref.unit(direction)
+    return ref.hom(np.eye(3) + (factor - 1.0) * np.outer(d, d), (1.0 - factor) * float(np.dot(o, d)) * d)
+
+
+@body("C19.scale_matrix")
+def b_scale_matrix(case, ctx):
+    """scale_matrix against the definition and scale_from_matrix round trip, as matrices, over factor magnitudes
+    1e-9 .. 1e9. Tolerances are relative to the block: the linear block of a uniform scaling is f*I (relative eps),
+    of a directional scaling I + (f-1) d d^T (absolute eps * max(1,|f|)); the translation is (1-f) times the origin."""
+    f = float(case["factor"])
+    origin = None if case["origin"] is None else A(case["origin"])
+    direction = None if case["direction"] is None else A(case["direction"])
+    kind = "uniform" if direction is None else "directional"
+    want = scale_ref(f, origin, direction)
+    fm = "factor" + ("<0" if f < 0 else "") + mag_class(f)
+    ctx.note(nontrivial=f != 1.0, cls=[f"scale_matrix:{kind}", f"scale_matrix:{kind}:{fm}", "scale_matrix:" + ("origin" + mag_class(maxabs(origin)) if origin is not None else "noorigin")])
+    S = guard("C19.scale_matrix|scale_matrix", tf.scale_matrix, f, origin, direction, _alias_ok=False)
+    check_hom(S, "C19.scale_matrix|scale_matrix")
+    lin = abs(f) if kind == "uniform" else max(1.0, abs(f))
+    om = 0.0 if origin is None else maxabs(origin)
+    tmag = (1.0 + abs(f)) * om
+    el = maxabs(S[:3, :3] - want[:3, :3]) / lin
+    et = maxabs(S[:3, 3] - want[:3, 3]) / (tmag if tmag else 1.0)
+    check(el <= T14 and et <= T14, f"C19.scale_matrix|scale_matrix|vs_definition|{kind}", lambda: f"case={case}: relative error linear {el:.3g} translation {et:.3g}")
+    if origin is not None:
+        e = maxabs(S[:3, :3] @ origin + S[:3, 3] - origin)
+        check(e <= 16 * EPS * tmag + 1e-300, f"C19.scale_matrix|scale_matrix|origin_not_fixed|{kind}", lambda: f"case={case}: origin moves by {e:.3g}")
+    try:
+        f2, o2, d2 = guard("C19.scale_matrix|scale_from_matrix", tf.scale_from_matrix, S)
+    except (ValueError, IndexError) as exc:
+        raise Violation(f"C19.scale_matrix|scale_from_matrix|raises|{kind}|{fm}", f"case={case}: {type(exc).__name__}: {exc}")
+    ok = math.isfinite(float(f2)) and np.isfinite(A(o2)).all() and (d2 is None or np.isfinite(A(d2)).all())
+    check(ok, f"C19.scale_matrix|scale_from_matrix|not_finite|{kind}|{fm}", lambda: f"case={case} -> {f2} {o2} {d2}")
+    if f != 1.0:
+        check((d2 is None) == (direction is None), f"C19.scale_matrix|scale_from_matrix|kind_confused|{kind}|{fm}", lambda: f"case={case}: a {kind} scaling by {f!r} was read back as factor={float(f2)!r} direction={None if d2 is None else A(d2).tolist()}")
+    # the factor: a uniform scaling stores f itself three times (relative eps); a directional one stores 1 + (f-1) d_i d_j
+    ef = abs(float(f2) - f) / lin
+    check(ef <= T13, f"C19.scale_matrix|scale_from_matrix|factor|{kind}|{fm}", lambda: f"case={case}: factor {f!r} read back as {float(f2)!r} (relative error {ef:.3g})")
+    S2 = tf.scale_matrix(float(f2), A(o2)[:3], None if d2 is None else A(d2))
+    el = maxabs(S2[:3, :3] - S[:3, :3]) / lin
+    check(el <= T13, f"C19.scale_matrix|round_trip|linear|{kind}|{fm}", lambda: f"case={case} -> factor={float(f2)!r} direction={None if d2 is None else A(d2).tolist()}: relative error {el:.3g}")
+    # the origin is any point of the fixed set, picked by the eigen-solver: cancellation scales with the point it picked
+    tm2 = (1.0 + abs(f)) * max(om, maxabs(A(o2)[:3]))
+    et = maxabs(S2[:3, 3] - S[:3, 3])
+    check(et <= T13 * tm2 + 1e-300, f"C19.scale_matrix|round_trip|translation|{kind}|{fm}", lambda: f"case={case} -> origin={A(o2).tolist()}: translation differs by {et:.3g} > {T13 * tm2:.3g}")
 
 
 # ------------------------------------------------------------------------------------------ is_rigid / fix_rigid
@@ -529,7 +617,7 @@ def b_rigid(case, ctx):
     L = M[:3, :3]
     dev = maxabs(L @ L.T - np.eye(3))
     ctx.note(nontrivial=maxabs(M - np.eye(4)) > 1e-13, cls=[f"rigid:{kind}"] + ([f"rigid:dir={case['dir']}"] if "dir" in case else []))
-    got = tf.is_rigid(M)
+    got = guard("C19.rigid|is_rigid", tf.is_rigid, M)
     check(isinstance(got, (bool, np.bool_)), "C19.rigid|is_rigid|type", str(type(got)))
     if kind == "rigid":
         harness(dev <= 1e-12, f"rigid generator produced dev={dev}")
@@ -585,7 +673,7 @@ def b_align(case, ctx):
     th = ref.vec_angle(au, bu)
     kind = case["kind"]
     ctx.note(nontrivial=th > 1e-13, cls=[f"align:{kind}", "align:" + ("acute" if th < PI / 2 else "obtuse")])
-    M = geometry.align_vectors(a, b)
+    M = guard("C19.align|align_vectors", geometry.align_vectors, a, b, _alias_ok=False)
     check_hom(M, "C19.align|align_vectors")
     check(maxabs(M[:3, 3]) == 0.0, "C19.align|align_vectors|translation", "")
     check_rotation(M[:3, :3], f"C19.align|align_vectors|{kind}", T12)
@@ -605,7 +693,7 @@ def b_plane(case, ctx):
     origin, normal = A(case["origin"]), A(case["normal"])
     n = ref.unit(normal)
     ctx.note(nontrivial=ref.vec_angle(n, [0, 0, 1]) > 1e-13 or maxabs(origin) > 0, cls=[f"plane:{case['kind']}"])
-    T = geometry.plane_transform(origin, normal)
+    T = guard("C19.plane|plane_transform", geometry.plane_transform, origin, normal, _alias_ok=False)
     check_hom(T, "C19.plane|plane_transform")
     check_rotation(T[:3, :3], f"C19.plane|plane_transform|{case['kind']}", T12)
     mag = 1.0 + maxabs(origin)
@@ -706,8 +794,26 @@ def point3(draw):
     k = draw(st.integers(0, 2))
     if k == 0:
         return [draw(st.sampled_from([0.0, 1.0, -1.0])) for _ in range(3)]
-    s = draw(st.sampled_from([1.0, 100.0]))
+    s = draw(st.sampled_from([1.0, 100.0, 1e-6, 1e-3, 1e4, 1e6]))
     return [draw(_f(-1, 1)) * s for _ in range(3)]
+
+
+# decades for scale factors (micrometres <-> metres <-> astronomical) and for lengths; exact powers of ten and
+# anything in between. Scale factors 1e-9 .. 1e9, translations / points 1e-6 .. 1e6.
+SCALE_DECADES = [-9, -7, -6, -5, -4, -3, -2, -1, 0, 0, 0, 1, 2, 3, 4, 5, 6, 7, 9]
+LENGTH_DECADES = [-6, -4, -3, -1, 0, 0, 1, 2, 3, 4, 6]
+
+
+@st.composite
+def scale_magnitude(draw):
+    return 10.0 ** draw(st.sampled_from(SCALE_DECADES)) * draw(st.sampled_from([1.0, 1.0, 0.5, 2.0, 3.3]))
+
+
+@st.composite
+def length(draw, n):
+    m = 10.0 ** draw(st.sampled_from(LENGTH_DECADES))
+    # a component is exactly zero or within three decades of the chosen length: no subnormal dust
+    return [draw(st.one_of(st.just(0.0), st.just(m), _f(1e-3, 1).map(lambda x: x * m), _f(1e-3, 1).map(lambda x: -x * m))) for _ in range(n)]
 
 
 @st.composite
@@ -758,7 +864,8 @@ def trs_case(draw):
     mag = st.one_of(st.sampled_from([1.0, 0.1, 10.0, 2.0]), _f(-1, 1).map(lambda e: 10.0**e))
     sc = [draw(mag) for _ in range(3)]
     pat = draw(st.sampled_from(["+++", "+++", "---", "+-+", "--+", "-++"]))
-    sc = [m if ch == "+" else -m for m, ch in zip(sc, pat)]
+    g = draw(scale_magnitude())  # overall size; the per-axis ratio stays within [0.1, 10] so cond(L) stays bounded
+    sc = [g * (m if ch == "+" else -m) for m, ch in zip(sc, pat)]
     sh = [draw(st.one_of(st.just(0.0), _f(-2, 2))) for _ in range(3)] if draw(st.integers(0, 3)) else [0.0, 0.0, 0.0]
     if draw(st.integers(0, 2)):
         # canonical ranges
@@ -767,7 +874,7 @@ def trs_case(draw):
         aj = draw(st.one_of(_f(-PI / 2, PI / 2), st.sampled_from([0.0, PI / 4, -PI / 4, PI / 2, -PI / 2, PI / 2 - 1e-6, -PI / 2 + 1e-10, PI / 2 - 1e-12, 1e-8, 1.5])))
     else:
         ai, aj, ak = draw(angle()), draw(angle()), draw(angle())
-    tr = [draw(st.one_of(st.just(0.0), _f(-100, 100))) for _ in range(3)]
+    tr = draw(length(3))
     return {"scale": sc, "shear": sh, "angles": [ai, aj, ak], "translate": tr}
 
 
@@ -792,15 +899,22 @@ def points_case(draw):
     s = draw(st.sampled_from([1.0, 1.0, 1000.0, 1e6]))
     coord = st.one_of(st.sampled_from([0.0, 1.0, -1.0]), _f(-1, 1).map(lambda x: x * s))
     P = [[draw(coord) for _ in range(dim)] for _ in range(n)]
-    return {"dim": dim, "cls": m["cls"], "M": m["M"], "P": P, "translate": draw(st.booleans())}
+    M, cls = np.array(m["M"]), m["cls"]
+    if draw(st.integers(0, 3)) == 0:
+        # the same transform in other units: linear block and translation rescaled independently
+        M[:dim, :dim] *= draw(scale_magnitude())
+        M[:dim, dim] *= 10.0 ** draw(st.sampled_from(LENGTH_DECADES))
+        cls += "_rescaled"
+    return {"dim": dim, "cls": cls, "M": M.tolist(), "P": P, "translate": draw(st.booleans())}
 
 
 @st.composite
 def planar_case(draw):
-    off = draw(st.one_of(st.none(), st.lists(st.one_of(st.just(0.0), _f(-50, 50)), min_size=2, max_size=2)))
+    off = draw(st.one_of(st.none(), length(2)))
     th = draw(st.one_of(st.none(), angle()))
-    pt = draw(st.one_of(st.none(), st.lists(_f(-20, 20), min_size=2, max_size=2)))
-    sc = draw(st.one_of(st.none(), st.none(), _f(0.1, 10), st.lists(_f(0.1, 10), min_size=2, max_size=2)))
+    pt = draw(st.one_of(st.none(), length(2)))
+    g = draw(scale_magnitude())
+    sc = draw(st.one_of(st.none(), st.none(), _f(0.1, 10).map(lambda x: x * g), st.lists(_f(0.1, 10).map(lambda x: x * g), min_size=2, max_size=2)))
     return {"offset": off, "theta": th, "point": pt, "scale": sc}
 
 
@@ -808,8 +922,29 @@ def planar_case(draw):
 def around_case(draw):
     dim = draw(st.sampled_from([2, 3]))
     m = draw(gm.matrix(classes=["rotation", "rigid", "similarity", "general_affine", "identity"])) if dim == 3 else draw(gm.matrix2d())
-    p = [draw(st.one_of(st.just(0.0), _f(-100, 100))) for _ in range(dim)]
-    return {"dim": dim, "cls": m["cls"], "M": m["M"], "p": p}
+    p = draw(length(dim))
+    M, cls = np.array(m["M"]), m["cls"]
+    if draw(st.integers(0, 2)) == 0:
+        M[:dim, :dim] *= draw(scale_magnitude())
+        M[:dim, dim] *= 10.0 ** draw(st.sampled_from(LENGTH_DECADES))
+        cls += "_rescaled"
+    return {"dim": dim, "cls": cls, "M": M.tolist(), "p": p}
+
+
+@st.composite
+def scale_matrix_case(draw):
+    f = draw(st.one_of(st.sampled_from([-1.0, 1.0, 2.0, 0.5, -3.0]), scale_magnitude(), scale_magnitude().map(lambda x: -x)))
+    origin = draw(st.one_of(st.none(), length(3)))
+    direction = draw(st.one_of(st.none(), axis_vec()))
+    return {"factor": f, "origin": origin, "direction": direction}
+
+
+@st.composite
+def scale_translate_case(draw):
+    g = draw(scale_magnitude())
+    sc = draw(st.one_of(st.none(), st.just(g), st.lists(_f(0.1, 10).map(lambda x: x * g), min_size=3, max_size=3), st.lists(st.sampled_from([g, -g, 1.0]), min_size=3, max_size=3)))
+    tr = draw(st.one_of(st.none(), length(3), _f(-1, 1).map(lambda x: x * 1e6)))
+    return {"scale": sc, "translate": tr}
 
 
 DIRS = {
@@ -1003,11 +1138,18 @@ def _trs_edge():
             for sh in ([0.0, 0.0, 0.0], [0.3, -0.4, 0.5]):
                 for ai, ak in ((0.0, 0.0), (0.3, 0.5), (-2.0, 3.0), (PI, -PI / 2)):
                     yield {"scale": sc, "shear": sh, "angles": [ai, aj, ak], "translate": [1.0, 2.0, 3.0]}
+    # every decade of overall size, uniform and per-axis, both signs, with the translation in other units
+    for k in range(-9, 10):
+        g = 10.0**k
+        for sc in ([g, g, g], [0.5 * g, g, 2.0 * g], [-g, -g, -g], [g, -2.0 * g, 0.7 * g]):
+            for sh in ([0.0, 0.0, 0.0], [0.3, -0.4, 0.5]):
+                for tr in ([0.0, 0.0, 0.0], [1e-6, -2e-6, 3e-6], [1e6, 2.0, -3e-3]):
+                    yield {"scale": sc, "shear": sh, "angles": [0.3, -0.7, 2.5], "translate": tr}
 
 
 @subcheck("C19", "trs", shards={"quick": 3, "thorough": 8})
 def s_trs(ctx):
-    ctx.enumerate("C19.trs", _trs_edge(), label="trs_gimbal_x_scale_x_shear_edge_grid")
+    ctx.enumerate("C19.trs", _trs_edge(), label="trs_gimbal_x_scale_x_shear_edge_grid_and_19_decades_of_scale")
     ctx.given("C19.trs", trs_case(), n={"quick": 3000, "thorough": 80000})
 
 
@@ -1038,6 +1180,20 @@ def _scale_translate_cases():
     for s in scales:
         for t in trans:
             yield {"scale": s, "translate": t}
+    for k in (-9, -6, -3, 3, 6, 9):
+        g = 10.0**k
+        for s in (g, [g, g, g], [g, 2 * g, -g]):
+            for t in (None, [1e-6, 0.0, 1e6]):
+                yield {"scale": s, "translate": t}
+
+
+def _scale_matrix_edge():
+    for k in range(-9, 10):
+        for sg in (1.0, -1.0):
+            f = sg * 10.0**k
+            for o in (None, [1.0, -2.0, 0.5], [1e6, 2e-6, -3.0]):
+                for d in (None, [0.0, 0.0, 1.0], [1.0, 2.0, 3.0], [1.0, 1.0, 0.0]):
+                    yield {"factor": f, "origin": o, "direction": d}
 
 
 @subcheck("C19", "planar", shards={"quick": 2, "thorough": 4})
@@ -1050,6 +1206,13 @@ def s_planar(ctx):
 @subcheck("C19", "scale_translate", shards={"quick": 1, "thorough": 1})
 def s_scale_translate(ctx):
     ctx.enumerate("C19.scale_translate", _scale_translate_cases(), label="scale_and_translate_argument_forms")
+    ctx.given("C19.scale_translate", scale_translate_case(), n={"quick": 600, "thorough": 20000})
+
+
+@subcheck("C19", "scale_matrix", shards={"quick": 2, "thorough": 4})
+def s_scale_matrix(ctx):
+    ctx.enumerate("C19.scale_matrix", _scale_matrix_edge(), label="scale_matrix_19_decades_x_sign_x_origin_x_direction")
+    ctx.given("C19.scale_matrix", scale_matrix_case(), n={"quick": 2000, "thorough": 60000})
 
 
 @subcheck("C19", "rigid", shards={"quick": 2, "thorough": 4})
@@ -1094,6 +1257,10 @@ REQUIRED_CLASSES["C19"] = [
     "axis_angle:zero", "axis_angle:tiny", "axis_angle:pi", "axis_angle:axis_in_plane", "axis_angle:point",
     "slerp:flip", "slerp:long", "slerp:direct", "slerp:t=mid", "slerp:identical", "slerp:tiny",
     "trs:gimbal", "trs:near_gimbal", "trs:canonical", "trs:mixed_sign", "trs:shear",
+    "trs:scale<=1e-6", "trs:scale<=1e-3", "trs:scale>=1e6", "trs:translate<=1e-6", "trs:translate>=1e6",
+    "scale_matrix:uniform:factor<=1e-6", "scale_matrix:directional:factor<=1e-6", "scale_matrix:uniform:factor>=1e6",
+    "scale_matrix:directional:factor>=1e6", "scale_matrix:directional:factor<0>=1e6", "scale_matrix:origin>=1e6",
+    "scale_translate:scale<=1e-6", "scale_translate:scale>=1e6", "around:linear<=1e-6", "around:point>=1e6",
     "points:2d:shortcut", "points:3d:shortcut", "points:2d:near_shortcut", "points:3d:near_shortcut", "points:empty",
     "points:translate=False", "points:translate=True",
     "rigid:rigid", "rigid:stretch", "rigid:dir=body_diagonal", "rigid:dir=axis", "rigid:lastrow",
